@@ -13,7 +13,7 @@ Open Scope Z_scope.
 (* ---------------------------------------------------------------- tokenizer states between items *)
 Definition pendCB (st : tstate) : Prop := t_type st = Some 0 /\ (t_pend st = PdStr "C" \/ t_pend st = PdStr "B").
 (* after an atom or a closing parenthesis *)
-Definition aft (st : tstate) : Prop := (t_pend st = PdNone /\ In (t_type st) [Some 0; Some 8; Some 3]) \/ pendCB st.
+Definition aft (st : tstate) : Prop := (t_pend st = PdNone /\ In (t_type st) [Some 0; Some 8; Some 3; Some 6]) \/ pendCB st.
 (* where a bond spelling may start: after an atom / ")" or after "(" *)
 Definition bondpre (st : tstate) : Prop := aft st \/ (t_pend st = PdNone /\ t_type st = Some 2).
 (* where an atom may start *)
